@@ -105,71 +105,112 @@ fn wildcard_at(name: &Name, j: usize) -> Name {
     name.suffix(name.num_labels() - j).wildcard_child()
 }
 
-/// Status of a wildcard owner with respect to the query type: T has the type, C has a CNAME
-/// (and not the type), O owns other data only, E empty non-terminal, - absent.
-fn wild_status(zone: &Zone, w: &Name, qtype: u16) -> char {
-    match zone.status(w) {
-        NodeStatus::Absent => '-',
-        NodeStatus::Ent => 'E',
-        NodeStatus::Data => {
-            if qtype == rz::T_ANY || zone.has(w, qtype) {
-                'T'
-            } else if zone.has(w, rz::T_CNAME) {
-                'C'
-            } else {
-                'O'
-            }
+fn depth_in(zone: &Zone, name: &Name) -> usize {
+    name.num_labels().saturating_sub(zone.origin.num_labels())
+}
+
+/// What the KNOWN deviation (upstream issue #2905: the in-memory store searches bottom-up for the
+/// first wildcard that owns the type or a CNAME, whether or not the name exists or a closer name
+/// blocks it, and never for a query name that itself starts with `*`) predicts for `name`.
+/// It is only used to label violations (`hw=ok` / `hw=differs`), never to excuse one.
+#[derive(Clone, Copy, PartialEq, Eq, Debug)]
+enum Pred {
+    Exact,
+    Synth(usize),
+    Nothing,
+}
+
+fn predicted(zone: &Zone, name: &Name, qtype: u16) -> Pred {
+    // ANY is replaced by a type present at the name, or A if the name owns nothing
+    let t = if qtype == rz::T_ANY {
+        let ts = zone.types_at(name);
+        if !ts.is_empty() {
+            return Pred::Exact;
+        }
+        rz::T_A
+    } else {
+        qtype
+    };
+    if zone.has(name, t) || zone.has(name, rz::T_CNAME) {
+        return Pred::Exact;
+    }
+    if name.is_wildcard() {
+        return Pred::Nothing;
+    }
+    for j in 1..=depth_in(zone, name) {
+        let w = wildcard_at(name, j);
+        if zone.has(&w, t) || zone.has(&w, rz::T_CNAME) {
+            return Pred::Synth(j);
         }
     }
+    Pred::Nothing
 }
 
-/// The wildcard level that a bottom-up search "first wildcard owning the type or a CNAME wins"
-/// (the behaviour recorded in upstream issue #2905) would use for `name`.
-fn hw_level(zone: &Zone, name: &Name, qtype: u16) -> Option<usize> {
-    let depth = name.num_labels() - zone.origin.num_labels();
-    (1..=depth).find(|j| matches!(wild_status(zone, &wildcard_at(name, *j), qtype), 'T' | 'C'))
-}
-
-fn exp_desc(name: &Name, s: &Step) -> String {
+fn exp_desc(zone: &Zone, name: &Name, s: &Step) -> String {
     match s {
         Step::OutOfZone => "OUT".into(),
-        Step::Referral { .. } => "REFERRAL".into(),
+        Step::Referral { cut } => {
+            // more than one NS owner on the path: the lower ones are occluded data below the cut
+            let nested = name.path_below(cut).iter().any(|p| zone.has(p, rz::T_NS));
+            if nested { "REFERRAL(nested)".into() } else { "REFERRAL".into() }
+        }
         Step::Data { source, .. } if source == name => "DATA".into(),
-        Step::Data { source, .. } => format!("SYNTH@up{}", up_level(name, source)),
+        Step::Data { .. } => "SYNTH".into(),
         Step::Cname { source, .. } if source == name => "CNAME".into(),
-        Step::Cname { source, .. } => format!("SYNTHCNAME@up{}", up_level(name, source)),
+        Step::Cname { .. } => "SYNTHCNAME".into(),
         Step::NoData(NoDataKind::OtherData) => "NODATA(other)".into(),
         Step::NoData(NoDataKind::Ent) => "NODATA(ent)".into(),
-        Step::NoData(NoDataKind::Wildcard { source }) => format!("NODATA(wild@up{})", up_level(name, source)),
-        Step::NoData(NoDataKind::WildcardEnt { source }) => format!("NODATA(wildent@up{})", up_level(name, source)),
+        Step::NoData(NoDataKind::Wildcard { .. }) => "NODATA(wild)".into(),
+        Step::NoData(NoDataKind::WildcardEnt { .. }) => "NODATA(wildent)".into(),
         Step::NxDomain { .. } => "NXDOMAIN".into(),
     }
 }
 
-/// Describe the RRs the response carries for `name` by where in the zone they come from.
-fn got_desc(zone: &Zone, name: &Name, qtype: u16, rrs: &[&Rr]) -> String {
-    if rrs.is_empty() {
-        return "EMPTY".into();
+/// Where the RRs that the response carries for `name` come from in the zone.
+#[derive(Clone, Debug)]
+struct Got {
+    text: String,
+    /// what it corresponds to in terms of `Pred`
+    pred: Option<Pred>,
+}
+
+/// Relation of wildcard level j to the rightful source of synthesis of `name`.
+fn level_text(zone: &Zone, name: &Name, j: usize) -> &'static str {
+    if zone.status(name) != NodeStatus::Absent {
+        return "up"; // the name exists: no wildcard applies at all
     }
-    let set_of = |t: u16| -> BTreeSet<rz::RData> { rrs.iter().filter(|r| r.rtype == t).map(|r| r.rdata.clone()).collect() };
-    let types: BTreeSet<u16> = rrs.iter().map(|r| r.rtype).collect();
-    let depth = name.num_labels().saturating_sub(zone.origin.num_labels());
+    let k = name.num_labels() - zone.closest_encloser(name).num_labels();
+    if j == k {
+        "ce"
+    } else {
+        "above-ce"
+    }
+}
+
+fn got_desc(zone: &Zone, name: &Name, qtype: u16, rrs: &[&Rr]) -> Got {
+    if rrs.is_empty() {
+        return Got { text: "EMPTY".into(), pred: Some(Pred::Nothing) };
+    }
+    let depth = depth_in(zone, name);
     if qtype == rz::T_ANY {
         let all: BTreeSet<(u16, rz::RData)> = rrs.iter().map(|r| (r.rtype, r.rdata.clone())).collect();
         let node = |o: &Name| -> BTreeSet<(u16, rz::RData)> { zone.rrs_at(o).into_iter().map(|r| (r.rtype, r.rdata)).collect() };
         if all.is_subset(&node(name)) {
-            return "DATA".into();
+            return Got { text: "DATA".into(), pred: Some(Pred::Exact) };
         }
         for j in 1..=depth {
             if all.is_subset(&node(&wildcard_at(name, j))) {
-                return format!("SYNTH@up{j}");
+                return Got { text: format!("SYNTH@{}", level_text(zone, name, j)), pred: Some(Pred::Synth(j)) };
             }
         }
-        return "OTHER".into();
+        return Got { text: "OTHER".into(), pred: None };
     }
-    if types.len() == 1 {
-        let t = *types.iter().next().unwrap();
-        let set = set_of(t);
+    let types: BTreeSet<u16> = rrs.iter().map(|r| r.rtype).collect();
+    let mut parts: Vec<String> = vec![];
+    let mut pred: Option<Pred> = None;
+    let mut first = true;
+    for t in types {
+        let set: BTreeSet<rz::RData> = rrs.iter().filter(|r| r.rtype == t).map(|r| r.rdata.clone()).collect();
         let label = if t == qtype {
             Some("")
         } else if t == rz::T_CNAME {
@@ -177,22 +218,35 @@ fn got_desc(zone: &Zone, name: &Name, qtype: u16, rrs: &[&Rr]) -> String {
         } else {
             None
         };
+        let mut p: Option<Pred> = None;
+        let mut text: Option<String> = None;
         if let Some(label) = label {
             if zone.rrset(name, t) == Some(&set) {
-                return if label.is_empty() { "DATA".into() } else { "CNAME".into() };
-            }
-            for j in 1..=depth {
-                if zone.rrset(&wildcard_at(name, j), t) == Some(&set) {
-                    return format!("SYNTH{label}@up{j}");
+                text = Some(if label.is_empty() { "DATA".into() } else { "CNAME".into() });
+                p = Some(Pred::Exact);
+            } else {
+                for j in 1..=depth {
+                    if zone.rrset(&wildcard_at(name, j), t) == Some(&set) {
+                        text = Some(format!("SYNTH{label}@{}", level_text(zone, name, j)));
+                        p = Some(Pred::Synth(j));
+                        break;
+                    }
                 }
             }
         }
-        if t == rz::T_NS && zone.rrset(name, t) == Some(&set) {
-            return "NS".into();
+        if text.is_none() && t == rz::T_NS && zone.rrset(name, t) == Some(&set) {
+            text = Some("NS".into());
         }
-        return format!("OTHER({})", rz::type_name(t));
+        parts.push(text.unwrap_or_else(|| format!("OTHER({})", rz::type_name(t))));
+        if first {
+            pred = p;
+            first = false;
+        } else if p != pred {
+            // mixed provenance: take the synthesised part (CNAME sorts before most types)
+            pred = pred.or(p);
+        }
     }
-    "OTHER(mixed)".into()
+    Got { text: parts.join("+"), pred }
 }
 
 struct SceneCtx<'a> {
@@ -201,30 +255,23 @@ struct SceneCtx<'a> {
 }
 
 impl SceneCtx<'_> {
-    /// `<clause>:q=<status>[*][,via-cname]:ce=up<k>:exp=..:got=..:hw=..`
-    fn key(&self, clause: &str, name: &Name, via_cname: bool, exp: &str, got: &str) -> String {
+    /// `<clause>:q=<status>[*]:exp=..:got=..:hw=<ok|differs|->`
+    fn key(&self, clause: &str, name: &Name, exp: &str, got: &str, got_pred: Option<Pred>) -> String {
         let st = match self.zone.status(name) {
             NodeStatus::Data => "data",
             NodeStatus::Ent => "ent",
             NodeStatus::Absent => "absent",
         };
         let in_zone = name.strictly_below(&self.zone.origin);
-        let ce = if in_zone && st == "absent" {
-            format!("up{}", name.num_labels() - self.zone.closest_encloser(name).num_labels())
+        let hw = if !in_zone || exp.starts_with("REFERRAL") {
+            "-"
         } else {
-            "-".into()
+            match got_pred {
+                Some(p) if p == predicted(self.zone, name, self.qtype) => "ok",
+                _ => "differs",
+            }
         };
-        let hw = if in_zone {
-            hw_level(self.zone, name, self.qtype).map(|j| format!("up{j}")).unwrap_or("-".into())
-        } else {
-            "-".into()
-        };
-        format!(
-            "{clause}:q={st}{}{}{}:ce={ce}:exp={exp}:got={got}:hw={hw}",
-            if name.is_wildcard() { "*" } else { "" },
-            if via_cname { ",via-cname" } else { "" },
-            if self.qtype == rz::T_ANY { ",t=ANY" } else { "" },
-        )
+        format!("{clause}:q={st}{}:exp={exp}:got={got}:hw={hw}", if name.is_wildcard() { "*" } else { "" })
     }
 }
 
@@ -240,9 +287,27 @@ fn v(key: String, what: String) -> Option<Verdict> {
     Some(Verdict { key, what })
 }
 
+/// Facts about the zone as a whole that DNSSEC scenes need.
+struct ZoneFacts {
+    /// number of owner names that get an NSEC / NSEC3 record (authoritative names incl. cuts)
+    denial_owners: usize,
+}
+
 /// Compare one response with the reference resolution. Returns the first deviation.
-fn judge(zone: &Zone, qname: &Name, qtype: u16, res: &Resolution, obs: &Obs, signed: bool, l: &mut Local) -> Option<Verdict> {
+#[allow(clippy::too_many_arguments)]
+fn judge(
+    zone: &Zone,
+    facts: &ZoneFacts,
+    qname: &Name,
+    qtype: u16,
+    res: &Resolution,
+    obs: &Obs,
+    signing: &Signing,
+    l: &mut Local,
+) -> Option<Verdict> {
     let sc = SceneCtx { zone, qtype };
+    let signed = signing.is_signed();
+    let tn = rz::type_name(qtype);
     let first = &res.first().1;
     if matches!(first, Step::OutOfZone) {
         l.outcome(&format!("out-of-zone:{}", obs.rcode));
@@ -253,7 +318,7 @@ fn judge(zone: &Zone, qname: &Name, qtype: u16, res: &Resolution, obs: &Obs, sig
     }
     if !matches!(obs.rcode.as_str(), "NOERROR" | "NXDOMAIN") {
         return v(
-            sc.key("rcode", qname, false, &exp_desc(qname, first), &obs.rcode),
+            sc.key("rcode", qname, &exp_desc(zone, qname, first), &obs.rcode, None),
             format!("rcode {} for an in-zone query", obs.rcode),
         );
     }
@@ -268,48 +333,49 @@ fn judge(zone: &Zone, qname: &Name, qtype: u16, res: &Resolution, obs: &Obs, sig
         }
     }
 
-    // the delegation point itself asked for NS / ANY: both shapes are defensible, not judged
-    if let Step::Referral { cut } = first {
-        if cut == qname && (qtype == rz::T_NS || qtype == rz::T_ANY) {
-            l.outcome(if obs.answer.is_empty() { "obs:ns-at-cut:referral" } else { "obs:ns-at-cut:answer" });
-            return None;
-        }
-    }
-
     // ---- walk the observed answer section along the CNAME chain
     let plain: Vec<&Rr> = obs.answer.iter().filter(|r| !is_dnssec_type(r.rtype)).collect();
     let mut used = vec![false; plain.len()];
     let mut cur = qname.clone();
     let mut seen_names = BTreeSet::new();
     let mut i = 0usize;
+    let mut unjudged_tail = false;
     loop {
         seen_names.insert(cur.clone());
         let here: Vec<usize> = (0..plain.len()).filter(|k| !used[*k] && plain[*k].owner == cur).collect();
         let here_rrs: Vec<&Rr> = here.iter().map(|k| plain[*k]).collect();
-        let exp_step = res.steps.get(i).map(|(n, s)| {
-            debug_assert_eq!(n, &cur);
-            s
-        });
-        let via = i > 0;
-        let Some(exp_step) = exp_step else {
-            // the reference chain ended before (loop closed): anything more is extra
-            break;
-        };
-        let exp = exp_desc(&cur, exp_step);
+        let Some((_, exp_step)) = res.steps.get(i) else { break };
+        let exp = exp_desc(zone, &cur, exp_step);
         let got = got_desc(zone, &cur, qtype, &here_rrs);
+        let hop = if i > 0 { format!(" (hop {i} of the CNAME chain from {qname})") } else { String::new() };
         match exp_step {
-            Step::Data { rtype, rdata, any, .. } => {
+            Step::Data { rtype, rdata, .. } => {
                 if qtype == rz::T_ANY {
-                    if here_rrs.is_empty() || got != exp {
-                        return v(sc.key("answer", &cur, via, &exp, &got), format!("ANY {cur}: expected RRs of the matched node, got {got}"));
+                    // RFC 8482: the server may pick; only "RRs of the matched node" is judged, and
+                    // what else the server adds (e.g. a chased CNAME) is not
+                    let want = match exp_step {
+                        Step::Data { source, .. } if *source == cur => Pred::Exact,
+                        Step::Data { source, .. } => Pred::Synth(up_level(&cur, source)),
+                        _ => Pred::Nothing,
+                    };
+                    if !here_rrs.is_empty() && got.pred != Some(want) {
+                        return v(
+                            sc.key("answer", &cur, &exp, &got.text, got.pred),
+                            format!("{cur} ANY: expected RRs of the matched node ({exp}), answer has {} {here_rrs:?}", got.text),
+                        );
                     }
-                    let _ = any;
+                    unjudged_tail = true;
                 } else {
+                    if here_rrs.is_empty() && i >= 8 {
+                        l.outcome("obs:cname-chain-cut-after-8-hops");
+                        unjudged_tail = true;
+                        break;
+                    }
                     let got_set: BTreeSet<rz::RData> = here_rrs.iter().filter(|r| r.rtype == *rtype).map(|r| r.rdata.clone()).collect();
                     if got_set != *rdata || here_rrs.iter().any(|r| r.rtype != *rtype) {
                         return v(
-                            sc.key("answer", &cur, via, &exp, &got),
-                            format!("{cur} {}: expected {exp} {rdata:?}, answer has {got} {here_rrs:?}", rz::type_name(qtype)),
+                            sc.key("answer", &cur, &exp, &got.text, got.pred),
+                            format!("{cur} {tn}{hop}: expected {exp} {rdata:?}, answer has {} {here_rrs:?}", got.text),
                         );
                     }
                 }
@@ -323,17 +389,19 @@ fn judge(zone: &Zone, qname: &Name, qtype: u16, res: &Resolution, obs: &Obs, sig
                 if !ok {
                     if here_rrs.is_empty() && i >= 8 {
                         l.outcome("obs:cname-chain-cut-after-8-hops");
+                        unjudged_tail = true;
                         break;
                     }
                     return v(
-                        sc.key("answer", &cur, via, &exp, &got),
-                        format!("{cur} {}: expected {exp} -> {target}, answer has {got} {here_rrs:?}", rz::type_name(qtype)),
+                        sc.key("answer", &cur, &exp, &got.text, got.pred),
+                        format!("{cur} {tn}{hop}: expected {exp} -> {target}, answer has {} {here_rrs:?}", got.text),
                     );
                 }
                 for k in here {
                     used[k] = true;
                 }
                 if qtype == rz::T_CNAME || qtype == rz::T_ANY {
+                    unjudged_tail = qtype == rz::T_ANY;
                     break;
                 }
                 if seen_names.contains(target) {
@@ -342,11 +410,54 @@ fn judge(zone: &Zone, qname: &Name, qtype: u16, res: &Resolution, obs: &Obs, sig
                 cur = target.clone();
                 i += 1;
             }
-            Step::OutOfZone | Step::Referral { .. } | Step::NoData(_) | Step::NxDomain { .. } => {
+            Step::Referral { cut } => {
+                // the delegation point itself asked for NS / ANY: answering with the NS RRset and
+                // answering with a referral are both defensible (the statement lists exact match
+                // first); not judged
+                if *cut == cur && (qtype == rz::T_NS || qtype == rz::T_ANY) {
+                    l.outcome(if here_rrs.is_empty() { "obs:ns-at-cut:referral" } else { "obs:ns-at-cut:answer" });
+                    return None;
+                }
+                let rest: Vec<&Rr> = (0..plain.len()).filter(|k| !used[*k]).map(|k| plain[k]).collect();
+                let rest_owners: BTreeSet<&Name> = rest.iter().map(|r| &r.owner).collect();
+                if !rest.is_empty() && rest.iter().all(|r| r.rtype == rz::T_NS) && rest_owners.len() == 1 && rest[0].owner != *cut && rest[0].owner != cur {
+                    // an NS RRset of another owner on the path (occluded NS below the cut)
+                    let o = &rest[0].owner;
+                    let rel = if o.strictly_below(cut) { "below-cut" } else { "other" };
+                    return v(
+                        format!("answer:exp={exp}:got=NS-OF-{rel}-IN-ANSWER"),
+                        format!("{qname} {tn}: authority ends at {cut}; the answer section carries the NS RRset of {o}"),
+                    );
+                }
+                if !rest.is_empty() && rest.iter().all(|r| r.rtype == rz::T_NS && r.owner == *cut) {
+                    // the cut's NS RRset sits in the ANSWER section instead of a referral
+                    return if i > 0 {
+                        v(
+                            "answer:cname-into-cut:exp=STOP-AT-CUT:got=NS-OF-CUT-IN-ANSWER".into(),
+                            format!("{qname} {tn}: the CNAME target {cur} lies at/below the cut {cut}; the cut's NS RRset is in the ANSWER section"),
+                        )
+                    } else {
+                        v(
+                            format!("answer:exp={exp}:got=NS-OF-CUT-IN-ANSWER:t={}", if qtype == rz::T_NS || qtype == rz::T_ANY { tn.as_str() } else { "other" }),
+                            format!("{qname} {tn}: below the cut {cut} a referral is due; the cut's NS RRset is in the ANSWER section (owner != qname)"),
+                        )
+                    };
+                }
+                if !here_rrs.is_empty() {
+                    let types: BTreeSet<String> = here_rrs.iter().map(|r| rz::type_name(r.rtype)).collect();
+                    let g = format!("{}({})", got.text, types.into_iter().collect::<Vec<_>>().join("+"));
+                    return v(
+                        sc.key("answer", &cur, &exp, &g, got.pred),
+                        format!("{cur} {tn}{hop}: expected a referral at {cut}, answer has data from at/below the cut: {here_rrs:?}"),
+                    );
+                }
+                break;
+            }
+            Step::OutOfZone | Step::NoData(_) | Step::NxDomain { .. } => {
                 if !here_rrs.is_empty() {
                     return v(
-                        sc.key("answer", &cur, via, &exp, &got),
-                        format!("{cur} {}: expected {exp}, answer has {got} {here_rrs:?}", rz::type_name(qtype)),
+                        sc.key("answer", &cur, &exp, &got.text, got.pred),
+                        format!("{cur} {tn}{hop}: expected {exp}, answer has {} {here_rrs:?}", got.text),
                     );
                 }
                 break;
@@ -355,16 +466,7 @@ fn judge(zone: &Zone, qname: &Name, qtype: u16, res: &Resolution, obs: &Obs, sig
     }
     // leftover answer RRs that are not on the chain
     let leftover: Vec<&Rr> = (0..plain.len()).filter(|k| !used[*k]).map(|k| plain[k]).collect();
-    if !leftover.is_empty() {
-        let (last_name, last_step) = res.last();
-        if let (Step::Referral { cut }, true) = (last_step, res.steps.len() > 1) {
-            if leftover.iter().all(|r| r.rtype == rz::T_NS && r.owner == *cut) {
-                return v(
-                    "answer:via-cname:exp=STOP-AT-CUT:got=NS-OF-CUT-IN-ANSWER".into(),
-                    format!("CNAME target {last_name} lies at/below the cut {cut}: its NS RRset is in the ANSWER section"),
-                );
-            }
-        }
+    if !leftover.is_empty() && !unjudged_tail {
         let t: BTreeSet<String> = leftover.iter().map(|r| rz::type_name(r.rtype)).collect();
         let below = leftover.iter().any(|r| zone.cut_on_path(&r.owner).is_some());
         return v(
@@ -375,6 +477,13 @@ fn judge(zone: &Zone, qname: &Name, qtype: u16, res: &Resolution, obs: &Obs, sig
     // no data from at/below a cut in the answer section (DS at the cut is parent-side data)
     for r in &plain {
         if let Some(cut) = zone.cut_on_path(&r.owner) {
+            if r.owner == cut && r.rtype == rz::T_NS && unjudged_tail && r.owner != *qname {
+                // ANY: the server chased a CNAME it found and the chase ended at/below a cut
+                return v(
+                    "answer:cname-into-cut:exp=STOP-AT-CUT:got=NS-OF-CUT-IN-ANSWER".into(),
+                    format!("{qname} {tn}: a chased CNAME leads to/below the cut {cut}; the cut's NS RRset is in the ANSWER section"),
+                );
+            }
             if !(r.owner == cut && r.rtype == rz::T_DS) {
                 return v(format!("answer-below-cut:{}", rz::type_name(r.rtype)), format!("answer RR {r} is at/below the cut {cut}"));
             }
@@ -386,12 +495,16 @@ fn judge(zone: &Zone, qname: &Name, qtype: u16, res: &Resolution, obs: &Obs, sig
     let chained = res.steps.len() > 1;
     let soa_in_auth = obs.authority.iter().any(|r| r.rtype == rz::T_SOA && r.owner == zone.origin);
     let ns_owners: BTreeSet<Name> = obs.authority.iter().filter(|r| r.rtype == rz::T_NS).map(|r| r.owner.clone()).collect();
-    let exp = exp_desc(last_name, last);
+    let exp = exp_desc(zone, last_name, last);
     if !chained {
         match last {
             Step::Data { .. } | Step::Cname { .. } => {
                 if obs.rcode != "NOERROR" {
-                    return v(sc.key("rcode", qname, false, &exp, &obs.rcode), format!("positive answer with rcode {}", obs.rcode));
+                    // (reachable for ANY only: the answer may be empty there)
+                    return v(
+                        sc.key("rcode", qname, &exp, &obs.rcode, Some(Pred::Nothing)),
+                        format!("{qname} {tn}: the name is matched ({exp}) but the rcode is {}", obs.rcode),
+                    );
                 }
             }
             Step::NoData(_) | Step::NxDomain { .. } => {
@@ -399,14 +512,14 @@ fn judge(zone: &Zone, qname: &Name, qtype: u16, res: &Resolution, obs: &Obs, sig
                 if obs.rcode != want {
                     let got = if obs.rcode == "NOERROR" { "NODATA" } else { "NXDOMAIN" };
                     return v(
-                        sc.key("rcode", qname, false, &exp, got),
-                        format!("{qname} {}: expected {exp}, got rcode {} with an empty answer", rz::type_name(qtype), obs.rcode),
+                        sc.key("rcode", qname, &exp, got, Some(Pred::Nothing)),
+                        format!("{qname} {tn}: expected {exp}, got rcode {} with an empty answer", obs.rcode),
                     );
                 }
                 if !ns_owners.is_empty() && !soa_in_auth {
                     return v(
-                        sc.key("authority", qname, false, &exp, "REFERRAL"),
-                        format!("{qname} {}: expected {exp}, got a referral to {ns_owners:?}", rz::type_name(qtype)),
+                        sc.key("authority", qname, &exp, "REFERRAL", None),
+                        format!("{qname} {tn}: expected {exp}, got a referral to {ns_owners:?}"),
                     );
                 }
                 if !soa_in_auth {
@@ -415,33 +528,29 @@ fn judge(zone: &Zone, qname: &Name, qtype: u16, res: &Resolution, obs: &Obs, sig
             }
             Step::Referral { cut } => {
                 if obs.rcode != "NOERROR" {
-                    return v(sc.key("rcode", qname, false, &exp, &obs.rcode), format!("referral expected at {cut}, rcode {}", obs.rcode));
+                    return v(sc.key("rcode", qname, &exp, &obs.rcode, None), format!("referral expected at {cut}, rcode {}", obs.rcode));
                 }
-                if ns_owners.is_empty() {
-                    let got = if soa_in_auth { "NODATA" } else { "EMPTY" };
-                    return v(sc.key("authority", qname, false, &exp, got), format!("referral expected at {cut}: no NS RRset in the authority section"));
+                // the apex NS RRset that the server adds for SOA queries is extra information, not judged
+                let others: BTreeSet<&Name> = ns_owners.iter().filter(|o| **o != zone.origin).collect();
+                if ns_owners.contains(&zone.origin) {
+                    l.outcome("obs:referral-plus-apex-ns");
                 }
-                if ns_owners.len() != 1 || !ns_owners.contains(cut) {
-                    let rel: Vec<String> = ns_owners
+                if others.is_empty() {
+                    let got = if soa_in_auth { "NODATA" } else { "NO-NS" };
+                    return v(sc.key("authority", qname, &exp, got, None), format!("{qname} {tn}: referral expected at {cut}: no NS RRset of a cut in the authority section"));
+                }
+                if others.len() != 1 || !others.contains(cut) {
+                    let rel: BTreeSet<&str> = others
                         .iter()
-                        .map(|o| {
-                            if o == cut {
-                                "cut".to_string()
-                            } else if o.strictly_below(cut) {
-                                "below-cut".to_string()
-                            } else if *o == zone.origin {
-                                "apex".to_string()
-                            } else {
-                                "other".to_string()
-                            }
-                        })
+                        .map(|o| if *o == cut { "cut" } else if o.strictly_below(cut) { "below-cut" } else { "other" })
                         .collect();
                     return v(
-                        format!("referral-wrong-cut:got={}", rel.join("+")),
-                        format!("{qname}: authority ends at {cut} but the referral carries NS of {ns_owners:?} (data from below a cut)"),
+                        format!("referral:exp={exp}:got=NS-of-{}", rel.into_iter().collect::<Vec<_>>().join("+")),
+                        format!("{qname} {tn}: authority ends at {cut} but the referral carries the NS RRset of {others:?}"),
                     );
                 }
-                let got_ns: BTreeSet<rz::RData> = obs.authority.iter().filter(|r| r.rtype == rz::T_NS).map(|r| r.rdata.clone()).collect();
+                let got_ns: BTreeSet<rz::RData> =
+                    obs.authority.iter().filter(|r| r.rtype == rz::T_NS && r.owner == *cut).map(|r| r.rdata.clone()).collect();
                 if Some(&got_ns) != zone.rrset(cut, rz::T_NS) {
                     return v("referral-ns-set-differs".into(), format!("referral at {cut}: NS set {got_ns:?}"));
                 }
@@ -458,7 +567,7 @@ fn judge(zone: &Zone, qname: &Name, qtype: u16, res: &Resolution, obs: &Obs, sig
         // after a CNAME chain the statement fixes neither rcode nor authority; NXDOMAIN is only
         // defensible if the chain really ends at a non-existent name
         if obs.rcode == "NXDOMAIN" && !matches!(last, Step::NxDomain { .. }) {
-            return v(sc.key("rcode", last_name, true, &exp, "NXDOMAIN"), format!("chain ends in {exp} but rcode is NXDOMAIN"));
+            return v(sc.key("rcode", last_name, &exp, "NXDOMAIN", None), format!("chain ends in {exp} but rcode is NXDOMAIN"));
         }
         l.outcome(&format!("obs:chain-end:{}:{}{}", last.class(), obs.rcode, if soa_in_auth { "+soa" } else { "" }));
     }
@@ -493,16 +602,18 @@ fn judge(zone: &Zone, qname: &Name, qtype: u16, res: &Resolution, obs: &Obs, sig
         let obs_negative = obs.answer.is_empty() && !(matches!(last, Step::Referral { .. }) && !chained);
         let obs_wild = obs.answer_sigs.iter().any(|s| (s.labels as usize) < s.owner.num_labels() - s.owner.is_wildcard() as usize);
         let exp_wild = res.steps.iter().any(|(n, s)| s.wildcard_source(n).is_some() && matches!(s, Step::Data { .. } | Step::Cname { .. }));
+        let kind = if matches!(signing, Signing::Nsec) { "nsec" } else { "nsec3" };
+        let chain = if facts.denial_owners <= 1 { "apex-only-chain" } else { "chain" };
         if obs_negative && !has_denial {
             return v(
-                format!("dnssec:denial-missing:negative:{}", last.class()),
-                format!("DO=1: negative answer for {qname} {} carries no NSEC/NSEC3", rz::type_name(qtype)),
+                format!("dnssec:denial-missing:negative:{}:{kind}:{chain}", if obs.rcode == "NXDOMAIN" { "NXDOMAIN" } else { "NODATA" }),
+                format!("DO=1: negative answer for {qname} {tn} carries no NSEC/NSEC3"),
             );
         }
         if (obs_wild || exp_wild) && !has_denial {
             return v(
-                "dnssec:denial-missing:wildcard".into(),
-                format!("DO=1: wildcard-synthesised answer for {qname} {} carries no NSEC/NSEC3", rz::type_name(qtype)),
+                format!("dnssec:denial-missing:wildcard:{kind}:t={}", if qtype == rz::T_SOA { "SOA" } else { "other" }),
+                format!("DO=1: wildcard-synthesised answer for {qname} {tn} carries no NSEC/NSEC3"),
             );
         }
         if obs_negative {
@@ -530,6 +641,7 @@ fn case_json(spec: &ZoneSpec, signing: &Signing, qname: &str, qtype: u16) -> Val
 fn run_query(
     built: &vzone::Built,
     zone: &Zone,
+    facts: &ZoneFacts,
     res: &Resolution,
     qname: &str,
     qtype: u16,
@@ -551,7 +663,7 @@ fn run_query(
     };
     let obs = observe(&m);
     let qn = Name::parse(qname);
-    judge(zone, &qn, qtype, res, &obs, signed, l).map(|vd| {
+    judge(zone, facts, &qn, qtype, res, &obs, &built.signing, l).map(|vd| {
         let txt = format!(
             "rcode={} aa={} answer={:?} authority={:?}",
             obs.rcode,
@@ -587,7 +699,7 @@ fn minimise(spec: &ZoneSpec, signing: &Signing, qname: &str, qtype: u16, key: &s
             let Ok(b) = vzone::build(&cand, signing) else { continue };
             let z = cand.reference();
             let res = rz::resolve(&z, &Name::parse(qname), qtype);
-            if let Some((vd, _)) = run_query(&b, &z, &res, qname, qtype, rt, &mut scratch) {
+            if let Some((vd, _)) = run_query(&b, &z, &facts_of(&z), &res, qname, qtype, rt, &mut scratch) {
                 if vd.key == key {
                     cur = cand;
                     shrunk = true;
@@ -599,6 +711,11 @@ fn minimise(spec: &ZoneSpec, signing: &Signing, qname: &str, qtype: u16, key: &s
             return cur;
         }
     }
+}
+
+fn facts_of(zone: &Zone) -> ZoneFacts {
+    let denial_owners = zone.nodes.keys().filter(|o| zone.cut_on_path(o).map(|c| c == **o).unwrap_or(true)).count();
+    ZoneFacts { denial_owners }
 }
 
 fn class_of(res: &Resolution) -> String {
@@ -624,6 +741,7 @@ fn class_of(res: &Resolution) -> String {
 
 fn run_zone(spec: &ZoneSpec, qnames: &[String], sigs: &[Signing], rt: &tokio::runtime::Runtime, l: &mut Local, sample: bool) {
     let zone = spec.reference();
+    let facts = facts_of(&zone);
     // reference resolutions once per (qname, qtype)
     let mut refs: Vec<(usize, u16, Resolution)> = vec![];
     for (qi, qn) in qnames.iter().enumerate() {
@@ -651,7 +769,7 @@ fn run_zone(spec: &ZoneSpec, qnames: &[String], sigs: &[Signing], rt: &tokio::ru
                     l.nontrivial(fnv_str(&format!("{zone_text}|{qn}|{t}")));
                 }
             }
-            if let Some((vd, resp)) = run_query(&built, &zone, res, qn, *t, rt, l) {
+            if let Some((vd, resp)) = run_query(&built, &zone, &facts, res, qn, *t, rt, l) {
                 let first = !l.has_violation_key(&vd.key);
                 l.violation(&vd.key, &vd.what, || {
                     let min = if first { minimise(spec, signing, qn, *t, &vd.key, rt) } else { spec.clone() };
@@ -727,7 +845,7 @@ fn main() {
             match vzone::build(&spec, &signing) {
                 Err(e) => l.violation("zone-build-failed", &e, || case.clone()),
                 Ok(b) => {
-                    if let Some((vd, resp)) = run_query(&b, &zone, &res, &qname, qtype, &rt, l) {
+                    if let Some((vd, resp)) = run_query(&b, &zone, &facts_of(&zone), &res, &qname, qtype, &rt, l) {
                         eprintln!("replay: expected {:?}\nreplay: response {resp}", res.steps);
                         l.violation(&vd.key, &vd.what, || case.clone());
                     }
